@@ -91,10 +91,10 @@ func prepare(expr string, ignoreCase bool, o *pbt.Obs) (*compiled, error) {
 		return nil, nil
 	}
 	if ignoreCase && namesCollideWhenLowered(p) {
-		// "equals the case-sensitive result on lower-cased pattern" can be read
-		// as lower-casing the names too, which would make this a key conflict
-		pbt.Exclude("ignore-case:token-names-collide-when-lowered")
-		return nil, nil
+		// token names that differ only in case (%{ID}=%{id};): "any line matched case-sensitively still
+		// matches" with ignore-case, so the expression must keep compiling and matching; how the names are
+		// spelled in the name table is not compared for such expressions (namesCaseStable below)
+		o.Label(true, "ignore-case:token-names-differ-only-in-case")
 	}
 	d, err := dissect.CompileEx(expr, ignoreCase)
 	if len(p.Errs) > 0 {
@@ -392,7 +392,7 @@ var (
 	asciiPieces = []string{"a", "b", "ab", "ba", "A", "B", "aB", " ", ":", "%", "-", "a", "b", "%", " "}
 	utf8Pieces  = append(append([]string{}, asciiPieces...), "é", "É", "ж", "Ж", "日", "éa", "é", "ж")
 	bytePieces  = append(append([]string{}, utf8Pieces...), "\xc3", "\xa9", "\x89", "\x00", "\u212a", "\u0130", "{", "}", "\xff", "\r")
-	namePool    = []string{"a", "b", "c", "val", "x1", "key", "N", "Key", "é", "a b", "?", "0", "a%", "b-c"}
+	namePool    = []string{"a", "b", "c", "val", "x1", "key", "N", "Key", "n", "KEY", "A", "é", "a b", "?", "0", "a%", "b-c"}
 )
 
 // widePieces: every printable ASCII character (so that the edges of the
@@ -482,8 +482,10 @@ func genPattern(t *rapid.T, pr profile, lowerNames bool) genPat {
 			if k.skip && k.name == "?" {
 				k.name = "q"
 			}
-			if lowerNames && (strings.ToLower(k.name) != k.name) {
-				pbt.Exclude("ignore-case:upper-case-token-name")
+			if lowerNames && (strings.ToLower(k.name) != k.name) && rapid.IntRange(0, 2).Draw(t, "lowername") == 0 {
+				// (2 in 3 ignore-case patterns keep their upper-case names, also names that differ only in
+				// case: matching must not depend on the names; their spelling in the name table is compared
+				// for case-stable names only)
 				k.name = strings.ToLower(k.name)
 			}
 			if !k.skip && k.name[0] == '?' {
